@@ -13,7 +13,9 @@
    `Lexer.clone/input/token`, ply/yacc.py `LRParser.parseopt_notrack`, `call_errorfunc`):
      * `thread_local.lexer` as seen by thread t (threading.local: one slot per thread);
      * PLY lexer objects — the module-level `luqum.parser.lexer` and the per-thread clones — with
-       `lexdata`(+`lexlen`), `lexpos` and the attribute `_luqum_headtail`; `lexer.clone()` is a shallow
+       `lexdata`(+`lexlen`), `lexpos` and the attribute `_luqum_headtail` (`token()` also assigns
+       `lexmatch` on the same object and reads `lineno`, `lexre`, `lexignore`; luqum never reads
+       `lexmatch` and nothing assigns the others: not locations here); `lexer.clone()` is a shallow
        `copy.copy`, so a clone starts with the SAME tracker reference as the module lexer;
      * HeadTailLexer instances ("trackers": pending head, `last_elt` = reference to a token object);
      * the token objects of the current call of each thread (reachable through `last_elt`, whose
